@@ -470,6 +470,15 @@ def run_c17(pid):
                                    "frames": [{"bs": bs, "subs": [{"type": "fixed", "order": order, "method": 0, "po": 0, "params": [["rice", 2]], "ov": {"po": po}}]}],
                                    "pcm": [[(i * 7) % 11 - 5 for i in range(bs)]]})
     mplans += P.directed_malformed(k)
+    # the highest partition orders (2^15 and 2^14 partitions need blocks of 32768 / 16384 samples and more): one residual per partition
+    k += 500
+    for bs_, po_, order_ in ((32768, 15, 0), (32768, 14, 1), (65535 // 32768 * 32768, 15, 0), (16384, 14, 0)):
+        k += 1
+        mplans.append({"id": k, "channels": 1, "bps": 8, "rate": 44100, "ratecode": "table", "bpscode": "hdr", "variable": False, "total_known": True,
+                       "md5": "zero", "subset": True, "selfcheck": False,
+                       "frames": [{"bs": bs_, "chassign": "indep", "bscode": "auto", "overlong": 0,
+                                   "subs": [{"type": "fixed", "wasted": 0, "order": order_, "method": k % 2, "po": po_, "params": [["rice", 0], ["rice", 1], ["esc", 3]]}]}],
+                       "pcm": [[(i % 5) - 2 for i in range(bs_)]]})
     # coded frame / sample numbers at the edges of every length class of the UTF-8-like coding (1 .. 6 bytes, up to 2^31 - 1)
     k += 1000
     for num in (0x7F, 0x80, 0x7FF, 0x800, 0xFFFF, 0x10000, 0x1FFFFF, 0x200000, 0x3FFFFFF, 0x4000000, 0x3FFFFFFF, 0x40000000, 0x7FFFFFFE, 0x7FFFFFFF):
